@@ -61,15 +61,25 @@ def _on_alarm(signum, frame):
     raise Hang('library call exceeded the watchdog')
 
 
+# multiplier applied to per-call limits when a suspected hang is re-executed in an isolated
+# process: a call that ends within 10x the limit on an otherwise idle process was slow, not hung
+hang_scale = [1]
+
+
 @contextlib.contextmanager
 def watchdog(seconds):
+    """Nestable: an inner watchdog (one library call) suspends the outer one (the whole case) and
+    re-arms it with the time that is left when it ends."""
     old = signal.signal(signal.SIGALRM, _on_alarm)
-    signal.setitimer(signal.ITIMER_REAL, seconds)
+    t0 = time.monotonic()
+    remaining, _ = signal.setitimer(signal.ITIMER_REAL, seconds)
     try:
         yield
     finally:
         signal.setitimer(signal.ITIMER_REAL, 0)
         signal.signal(signal.SIGALRM, old)
+        if remaining:
+            signal.setitimer(signal.ITIMER_REAL, max(remaining - (time.monotonic() - t0), 0.01))
 
 
 # ---------------------------------------------------------------------------
@@ -322,12 +332,13 @@ def minimise(mod, case, vclass, known, budget_s=90, violation=None):
     return best, steps
 
 
-def run_isolated(mod, case, limit=90):
+def run_isolated(mod, case, limit=90, scale=1):
     """Execute one case in a forked child (used for replays and hang confirmation)."""
     ctx = multiprocessing.get_context('fork')
     parent, child = ctx.Pipe()
 
     def work():
+        hang_scale[0] = scale
         build.activate()
         if hasattr(mod, 'worker_init'):
             mod.worker_init()
@@ -549,7 +560,8 @@ def run_check(mod, tier, seed, runs=None, jobs=None, wall=None, selfcheck=True, 
         idx, v = items[0]
         case = gen_case(mod, seed, idx, tier)
         if vclass in ('hang', 'hang-hard'):
-            out = run_isolated(mod, case, limit=60)
+            confirm = getattr(mod, 'HANG_CONFIRM_S', 60)
+            out = run_isolated(mod, case, limit=confirm, scale=10)
             real, _ = violation_classes(out, prop, known)
             if not any(x['class'] in ('hang', 'hang-hard') for x in real):
                 agg['extra']['slow_under_load_not_hang'] += len(items)
